@@ -1138,7 +1138,7 @@ func deconstructApprovedHashAlgs(apprHashes ApprovedHashAlgorithm) uint16 {
 }
 
 func genLCPHash(alg crypto.Hash, hash []byte) (*[]byte, error) {
-	var ret []byte
+	ret := make([]byte, alg.Size())
 	r := bytes.NewReader(hash)
 	hByte := make([]byte, alg.Size())
 	err := binary.Read(r, binary.LittleEndian, &hByte)
